@@ -115,14 +115,260 @@ theorem close_after_any_history (L : Layout) (hwf : L.WF) (qs : List (Key × Ty)
 theorem fresh_scope_inv (L : Layout) (r : Rd) (hdoc : r.doc = L.doc) (hpos : r.pos = L.posOf 0) :
     Inv L ⟨r.pos, L.size, 0, none⟩ r := inv_init L r hdoc hpos
 
-/-! #### recorded finding, as a refutation: an array left partly read misplaces the parent -/
+/-! #### histories with array scopes left partly read
 
-/-- The full statement "whatever is left unread is skipped" fails for array scopes: witness
-    `{"a":[1,2,3],"b":5} 7`, open "a", read one element, close, request "b". -/
-theorem array_left_partly_read_refuted :
+`~CMsgPackReadArrayScope` skips the elements that were not read (fix 0b9e4f2; errors of the skip are deferred to
+`Finalize()`), so an array scope opened under a key may be left wherever the caller likes — a `std::tuple` shorter
+than the array under the Skip policy, a partly read nested array — without disturbing what is requested
+afterwards. The request language of the history theorems is extended accordingly. -/
+
+/-- a request on an object scope: a scalar by key, or the array under a key read with the target kinds `tys`
+    (as many or as few elements as the caller likes) and closed -/
+inductive OReq where
+  | get (k : Key) (ty : Ty)
+  | arr (k : Key) (tys : List Ty)
+
+inductive OAns where
+  | val (a : Option Sc)
+  | arr (a : Option (List (Option Sc)))
+
+def runReq : OReq → Obj → Rd → Except Err (OAns × Obj × Rd)
+  | .get k ty, o, r =>
+    match objGet k ty o r with
+    | .ok (a, o', r') => .ok (.val a, o', r')
+    | .error e => .error e
+  | .arr k tys, o, r =>
+    match objReadArr k tys o r with
+    | .ok (a, o', r') => .ok (.arr a, o', r')
+    | .error e => .error e
+
+def runReqs : List OReq → Obj → Rd → Except Err (List OAns × Obj × Rd)
+  | [], o, r => .ok ([], o, r)
+  | q :: qs, o, r =>
+    match runReq q o r with
+    | .error e => .error e
+    | .ok (a, o', r') =>
+      match runReqs qs o' r' with
+      | .error e => .error e
+      | .ok (as, o'', r'') => .ok (a :: as, o'', r'')
+
+/-- the abstract answer to a request: for an array request, the answers for the FIRST `tys.length` elements of the
+    array stored under the key (`none`: absent key, nil, or a value of another kind under Skip) -/
+def ReqAnswerOK (L : Layout) (mis : Mis) : OReq → OAns → Prop
+  | .get k ty, .val a => AnswerOK L mis (k, ty) a
+  | .arr k tys, .arr a =>
+    (∃ (m : Nat) (e : Key × List Tok), L.entries[m]? = some e ∧ e.1 = k ∧ ArrOutcome mis tys e.2 (.ok a)) ∨
+    ((∀ m, keyAt L m ≠ some k) ∧ a = none)
+  | _, _ => False
+
+/-- the exception a request may raise: the policy's exception for the requested field / for one of the requested
+    elements, or OutOfRange for an element beyond the end of the array -/
+def ReqErrorOK (L : Layout) (mis : Mis) : OReq → Err → Prop
+  | .get k ty, err => ErrorOK L mis (k, ty) err
+  | .arr k tys, err => ∃ (m : Nat) (e : Key × List Tok), L.entries[m]? = some e ∧ e.1 = k ∧ ArrOutcome mis tys e.2 (.error err)
+
+/-- **one request of the extended language** re-establishes the cursor invariant, whatever part of an array it left unread -/
+theorem req_correct (L : Layout) (hwf : L.WF) (harr : L.ArrWF) (q : OReq) (o : Obj) (r : Rd) (hinv : Inv L o r) :
+    match runReq q o r with
+    | .ok (a, o', r') => ReqAnswerOK L r.mis q a ∧ Inv L o' r' ∧ r'.mis = r.mis
+    | .error err => ReqErrorOK L r.mis q err := by
+  cases q with
+  | get k ty =>
+    have hg := get_correct L hwf (k, ty) o r hinv
+    simp only [runReq]
+    cases hobj : objGet k ty o r with
+    | error e => rw [hobj] at hg; exact hg
+    | ok res => obtain ⟨a, o', r'⟩ := res; rw [hobj] at hg; exact hg
+  | arr k tys =>
+    simp only [runReq]
+    rcases objReadArr_spec L hwf harr k tys o r hinv with ⟨m, e, out, he, hk, hout, h⟩ | ⟨hno, o', r', h, hinv', hm⟩
+    · cases out with
+      | ok a =>
+        obtain ⟨o', r', h1, h2, h3⟩ := h
+        rw [h1]
+        exact ⟨Or.inl ⟨m, e, he, hk, hout⟩, h2, h3⟩
+      | error err =>
+        simp only at h
+        rw [h]
+        exact ⟨m, e, he, hk, hout⟩
+    · rw [h]
+      exact ⟨Or.inr ⟨hno, rfl⟩, hinv', hm⟩
+
+/-- **C03, every history, with arrays left partly read.** Any sequence of requests — scalars by key in any order,
+    repeated and absent keys, and arrays by key of which only the first few elements (or none) are read before the
+    array scope is destroyed — gets, request by request, exactly the abstract answers: an array left partly read
+    disturbs nothing that follows. If an exception is raised it is the policy's exception for one of the requests. -/
+theorem history_with_arrays_correct (L : Layout) (hwf : L.WF) (harr : L.ArrWF) (qs : List OReq) :
+    ∀ (o : Obj) (r : Rd), Inv L o r →
+    match runReqs qs o r with
+    | .ok (as, o', r') => Forall2 (ReqAnswerOK L r.mis) qs as ∧ Inv L o' r' ∧ r'.mis = r.mis
+    | .error err => ∃ q ∈ qs, ReqErrorOK L r.mis q err := by
+  induction qs with
+  | nil => intro o r h; exact ⟨Forall2.nil, h, rfl⟩
+  | cons q qs ih =>
+    intro o r hinv
+    have hg := req_correct L hwf harr q o r hinv
+    unfold runReqs
+    cases hobj : runReq q o r with
+    | error e => rw [hobj] at hg; exact ⟨q, by simp, hg⟩
+    | ok res =>
+      obtain ⟨a, o', r'⟩ := res
+      rw [hobj] at hg
+      obtain ⟨ha, hinv', hm⟩ := hg
+      have := ih o' r' hinv'
+      cases hr : runReqs qs o' r' with
+      | error e =>
+        rw [hr] at this
+        obtain ⟨q', hq', he'⟩ := this
+        simp only [hr]
+        exact ⟨q', by simp [hq'], hm ▸ he'⟩
+      | ok res2 =>
+        obtain ⟨as, o'', r''⟩ := res2
+        rw [hr] at this
+        obtain ⟨h1, h2, h3⟩ := this
+        simp only [hr]
+        exact ⟨Forall2.cons ha (hm ▸ h1), h2, by rw [h3, hm]⟩
+
+/-- **C03, unread fields and unread elements are skipped.** After ANY history of the extended language, destroying
+    the object scope leaves the reader exactly behind the object. -/
+theorem close_after_any_history_with_arrays (L : Layout) (hwf : L.WF) (harr : L.ArrWF) (qs : List OReq) (o : Obj) (r : Rd)
+    (hinv : Inv L o r) (as : List OAns) (o' : Obj) (r' : Rd) (hrun : runReqs qs o r = .ok (as, o', r')) :
+    ∃ o'' r'', objClose o' r' = .ok (o'', r'') ∧ r''.pos = L.posOf L.size ∧ r''.rest = L.post := by
+  have h := history_with_arrays_correct L hwf harr qs o r hinv
+  rw [hrun] at h
+  obtain ⟨o'', r'', h1, h2, h3, _⟩ := objClose_spec L hwf o' r' h.2.1
+  refine ⟨o'', r'', h1, h2, ?_⟩
+  have hdoc : r''.doc = L.doc := by
+    obtain ⟨i, c, hat, _⟩ := h.2.1
+    rw [h3, hat.doc]
+  have := rest_at L r'' hdoc L.size h2
+  rw [this]
+  simp [Layout.size]
+
+/-! the composite requests are what the scope machine — the model that is run against the real scopes — does -/
+
+def toAns : Option Sc → Ans
+  | some v => .val v
+  | none => .no
+
+/-- `arrReads` = the machine's `SerializeValue` steps on an array scope -/
+theorem arrReads_is_machine (tys : List Ty) : ∀ (size index : Nat) (r : Rd) (tl : List Scope) (d : Option Err)
+    (as : List (Option Sc)) (idx : Nat) (r' : Rd), arrReads tys size index r = .ok (as, idx, r') →
+    ∀ qs, run ⟨r, .arr size index :: tl, d⟩ (tys.map .next ++ qs) = as.map toAns ++ run ⟨r', .arr size idx :: tl, d⟩ qs := by
+  induction tys with
+  | nil =>
+    intro size index r tl d as idx r' h qs
+    simp only [arrReads, Except.ok.injEq, Prod.mk.injEq] at h
+    obtain ⟨rfl, rfl, rfl⟩ := h
+    rfl
+  | cons ty tys ih =>
+    intro size index r tl d as idx r' h qs
+    simp only [arrReads] at h
+    cases hc : checkEnd size index with
+    | error e => simp [hc] at h
+    | ok u =>
+      cases hr : r.readValue ty with
+      | error e => simp [hc, hr] at h
+      | ok res =>
+        obtain ⟨a, r1⟩ := res
+        cases hrest : arrReads tys size (index + 1) r1 with
+        | error e => simp [hc, hr, hrest] at h
+        | ok res2 =>
+          obtain ⟨as', idx', r2⟩ := res2
+          simp only [hc, hr, hrest, Except.ok.injEq, Prod.mk.injEq] at h
+          obtain ⟨rfl, rfl, rfl⟩ := h
+          have := ih size (index + 1) r1 tl d as' idx' r2 hrest qs
+          cases a with
+          | some v => simp only [List.map_cons, List.cons_append, run, step, hc, hr, toAns, this]
+          | none => simp only [List.map_cons, List.cons_append, run, step, hc, hr, toAns, this]
+
+/-- **`objReadArr` = the machine's `OpenArrayScope(key)`, element requests, destruction of the array scope**, from any
+    state of the enclosing object scope and whatever is requested afterwards (`qs`) -/
+theorem objReadArr_is_machine (key : Key) (tys : List Ty) (o : Obj) (r : Rd) (tl : List Scope) (d : Option Err) :
+    match objReadArr key tys o r with
+    | .ok (some as, o', r') => ∃ n, ∀ qs,
+        run ⟨r, .obj o :: tl, d⟩ (.openArrK key :: (tys.map .next ++ .close :: qs))
+          = .opened n :: (as.map toAns ++ .closed :: run ⟨r', .obj o' :: tl, d⟩ qs)
+    | .ok (none, o', r') => ∀ qs,
+        run ⟨r, .obj o :: tl, d⟩ (.openArrK key :: qs) = .no :: run ⟨r', .obj o' :: tl, d⟩ qs
+    | .error _ => True := by
+  unfold objReadArr
+  cases hf : findValueByKey key o r with
+  | error e => trivial
+  | ok res =>
+    obtain ⟨b, o1, r1⟩ := res
+    cases b with
+    | false => intro qs; simp only [run, step, hf]
+    | true =>
+      simp only
+      cases hs : r1.readArraySize with
+      | error e => trivial
+      | ok res2 =>
+        obtain ⟨sz, r2⟩ := res2
+        cases sz with
+        | none => intro qs; simp only [run, step, hf, hs]
+        | some n =>
+          simp only
+          cases hrd : arrReads tys n 0 r2 with
+          | error e => trivial
+          | ok res3 =>
+            obtain ⟨as, idx, r3⟩ := res3
+            simp only
+            cases hcl : arrClose n idx r3 with
+            | error e => trivial
+            | ok r4 =>
+              refine ⟨n, fun qs => ?_⟩
+              have := arrReads_is_machine tys n 0 r2 (.obj o1 :: tl) d as idx r3 hrd (.close :: qs)
+              simp only [run, step, hf, hs, this, hcl, notifyParent]
+
+/-- the composite `objReadArr` is what the scope machine (the model run against the real scopes) does for the requests
+    `OpenArrayScope(key)`, one `SerializeValue` per kind, destroy — on the witness of the former finding and around it -/
+example :
+    let doc : List Tok := [.map 2, .str [97], .arr 3, .int 1, .str [120], .int 3, .str [98], .int 5, .int 7]
+    (objReadArr (.str [97]) [.int, .int] ⟨1, 2, 0, none⟩ ⟨doc, 1, .skip⟩).toOption.map (fun x => (x.1, x.2.2.pos))
+      = some (some [some (.int 1), none], 6) ∧
+    run (initSt doc .skip) [.openObj, .openArrK (.str [97]), .next .int, .next .int, .close, .get (.str [98]) .int, .close, .next .int]
+      = [.opened 2, .opened 3, .val (.int 1), .no, .closed, .val (.int 5), .closed, .val (.int 7)] := by
+  decide
+
+/-! #### the former finding `msgpack-array-left-partly-read`: now a positive statement -/
+
+/-- the witness of the former finding: `{"a":[1,2,3],"b":5} 7`, open "a", read one element, close, request "b",
+    close, read the sentinel — every answer is the data-model answer -/
+theorem array_left_partly_read_harmless :
     run (initSt [.map 2, .str [97], .arr 3, .int 1, .int 2, .int 3, .str [98], .int 5, .int 7] .skip)
         [.openObj, .openArrK (.str [97]), .next .int, .close, .get (.str [98]) .int, .close, .next .int]
+      = [.opened 2, .opened 3, .val (.int 1), .closed, .val (.int 5), .closed, .val (.int 7)] := by
+  decide
+
+/-- the scope machine WITHOUT the skip loop in `~CMsgPackReadArrayScope` (the code before fix 0b9e4f2) -/
+def stepBeforeFix (st : St) (req : Req) : Ans × St :=
+  match st.stack, req with
+  | .arr _ _ :: tl, .close => (.closed, { st with stack := notifyParent tl })
+  | _, _ => step st req
+
+def runBeforeFix : St → List Req → List Ans
+  | _, [] => []
+  | st, q :: qs =>
+    match stepBeforeFix st q with
+    | (.err e, _) => [.err e]
+    | (.terminate, _) => [.terminate]
+    | (.badReq, _) => [.badReq]
+    | (a, st') => a :: runBeforeFix st' qs
+
+/-- why the loop is needed (documented refutation of the unrepaired code): without it the same history reads "b" from
+    inside the array -/
+theorem array_left_partly_read_refuted_before_fix :
+    runBeforeFix (initSt [.map 2, .str [97], .arr 3, .int 1, .int 2, .int 3, .str [98], .int 5, .int 7] .skip)
+        [.openObj, .openArrK (.str [97]), .next .int, .close, .get (.str [98]) .int, .close, .next .int]
       ≠ [.opened 2, .opened 3, .val (.int 1), .closed, .val (.int 5), .closed, .val (.int 7)] := by
+  decide
+
+/-- a truncated document: the skip loop of a destructor fails, the scope is closed all the same (`C`), and the error
+    surfaces from `Finalize()` after the last request — never `terminate` (C20) -/
+example :
+    run (initSt [.map 2, .str [97], .arr 3, .int 1] .skip) [.openObj, .openArrK (.str [97]), .next .int, .close, .close]
+      = [.opened 2, .opened 3, .val (.int 1), .closed, .closed, .err .parsing] := by
   decide
 
 /-! #### non-vacuity -/
@@ -135,6 +381,18 @@ example : exampleLayout.WF := by
   rcases he with rfl | rfl
   · exact wfv_arr [[.int 1], [.int 2]] (by intro v hv; simp at hv; rcases hv with rfl | rfl <;> exact wfv_scalar _ rfl)
   · exact wfv_scalar _ rfl
+
+example : exampleLayout.ArrWF := by
+  intro e he n ts h
+  simp [exampleLayout] at he
+  rcases he with rfl | rfl
+  · exact ⟨[[.int 1], [.int 2]], rfl, by intro v hv; simp at hv; rcases hv with rfl | rfl <;> exact wfv_scalar _ rfl⟩
+  · simp at h
+
+-- an array read partly (one of two elements), then fields before and after it, then the array again in full
+example : (runReqs [.arr (.str [97]) [.int], .get (.int 5) .str, .arr (.str [97]) [.int, .int], .arr (.str [97]) [], .get (.int 5) .str]
+    ⟨1, 2, 0, none⟩ ⟨exampleLayout.doc, 1, .skip⟩).toOption.map (fun x => x.1.length) = some 5 := by
+  decide
 
 example : (runGets [(.int 5, .str), (.str [97], .int), (.str [122], .int), (.int 5, .str)] ⟨1, 2, 0, none⟩
     ⟨exampleLayout.doc, 1, .skip⟩).toOption.map (·.1) = some [some (.str [120]), none, none, some (.str [120])] := by
